@@ -72,7 +72,9 @@ func (f *in) Underlying() interface{} { return nil }
 func (f *in) Listen(onMsg func(msg []byte, milliseconds int32), conf drivers.ListenConfig) (stopFn func(), err error) {
 	//fmt.Printf("listeining from in port of %s\n", f.Driver.name)
 
-	f.last = time.Now()
+	// listening starts now on the clock of the driver (the one that Sleep advances and Send reads);
+	// the wall clock must not be mixed into it
+	f.last = f.now
 
 	// a previous listener may have been stopped: listening again must work
 	f.stopListening = false
